@@ -3,6 +3,8 @@
 // Contracts for package llm, checked by /verif/govc.
 package llm
 
+//@ extern func strconv.Itoa
+//@   pure reads none
 //@ extern func projectorMemoryRequirements
 //@   modifies nothing
 //@   ensures result.0 < (1 << 40) && result.1 < (1 << 40)
@@ -73,6 +75,30 @@ package llm
 //@
 //@   loop 10 invariant memoryRequiredPartial <= (rangeindex + 1) * (1 << 56)
 //@   loop 10 invariant forall k int :: 0 <= k && k < len(gpus) ==> gpuAllocations[k] < (1 << 56)
+//
+// ---- strengthening round 4 (appended; assert numbering of the clauses above is unchanged) ----
+// "VRAMSize is the GPU-resident part": the reported VRAMSize covers every reported per-GPU size
+// (the exact equality VRAMSize == sum of GPUSizes needs a recursive spec function over a slice,
+// which this engine cannot encode: see props not_decided), one size per GPU is reported, and
+// an estimate of zero layers claims no GPU memory.
+//@   loop 10 invariant forall k int :: 0 <= k && k <= rangeindex ==> gpuAllocations[k] <= memoryRequiredPartial
+//@   ensures result.Layers > 0 ==> len(result.GPUSizes) == len(gpus) && forall k int :: 0 <= k && k < len(gpus) ==> result.GPUSizes[k] <= result.VRAMSize
+//@   ensures result.Layers == 0 ==> len(result.GPUSizes) == 0 && result.VRAMSize == 0
+// "reports a per-GPU split": every entry of the split that is joined is the decimal form of
+// that GPU's layer count (loop 11), all GPUs are in it, the separator is the comma, and the
+// reported TensorSplit / Layers / GPUSizes are the values computed above.
+//@   loop 11 invariant len(splits) == len(gpus) && forall k int :: 0 <= k && k <= rangeindex ==> splits[k] == strconv.Itoa(layerCounts[k])
+//@   assert-at call strings.Join #1 : len(arg0) == len(gpus) && arg1 == "," && forall k int :: 0 <= k && k < len(gpus) ==> arg0[k] == strconv.Itoa(layerCounts[k])
+//@   assert-at store TensorSplit #1 : stored == tensorSplit && (len(gpus) <= 1 ==> stored == "")
+// "graph size switch between partial and full offload": the full-offload graph is chosen only
+// when every repeating layer was placed (and, when an output layer exists and the user's limit
+// admits it, that one too); the chosen graph is what is reported and what every GPU that holds
+// layers is charged (so the reported GPUSizes[k] include it).
+//@   loop 9 invariant forall k int :: 0 <= k && k <= rangeindex && layerCounts[k] > 0 ==> gpuAllocations[k] >= ite(fullyLoaded, graphFullOffload, graphPartialOffload)
+//@   assert-at store Graph #3 : stored == ite(fullyLoaded, graphFullOffload, graphPartialOffload)
+//@     && (fullyLoaded ==> layerCount >= f.KV().BlockCount())
+//@     && (fullyLoaded && memoryLayerOutput > 0 && (opts.NumGPU < 0 || opts.NumGPU > f.KV().BlockCount()) ==> layerCount == f.KV().BlockCount() + 1)
+//@   assert-at return #3 : forall k int :: 0 <= k && k < len(gpus) && layerCounts[k] > 0 ==> estimate.GPUSizes[k] >= estimate.Graph
 
 // "A model is declared to fit completely only if all of its layers were placed":
 // the two `return true` statements (return #1: no user limit, return #2: num_gpu set).
@@ -83,3 +109,8 @@ package llm
 //@   modifies nothing
 //@   assert-at return #1 : opts.NumGPU < 0 && estimate.Layers >= f.KV().BlockCount() + 1
 //@   assert-at return #2 : opts.NumGPU >= 0 && estimate.Layers >= opts.NumGPU && estimate.Layers > 0
+// (appended) the verdict is about THIS model, these options, this parallelism and the GPU group
+// of the current iteration, and the VRAM figure returned with it is the estimate's.
+//@   assert-at call EstimateGPULayers #1 : arg0 == gpus && arg1 == f && arg2 == projectors && arg3 == opts && arg4 == numParallel
+//@   assert-at return #1 : estimatedVRAM == estimate.VRAMSize
+//@   assert-at return #2 : estimatedVRAM == estimate.VRAMSize
